@@ -49,23 +49,6 @@ theorem operand_powers :
     single `Is` method -/
 theorem public_errors_only_is : (errorMethods.filter (fun m => m.1 == "jmespath")).all (fun m => m.2.2 == "Is") = true := by decide
 
-/-- [C06, C08] the four entry points: one-shot `Search` is `parser.Parse` then `evaluator.Evaluate`, `Compile` is
-    `parser.Parse`, `(*Expression).Search` is `evaluator.Evaluate` on the stored node — the same two functions, each
-    error passed through the same mapping; `MustCompile` panics instead of returning the parse error -/
-theorem entry_point_calls :
-    ((entryPoints.map (fun e => (e.1, e.2.1, e.2.2.2))) ==
-      [("Search", ["parser.Parse", "parseError", "evaluator.Evaluate", "evaluateError"], false),
-       ("Compile", ["parser.Parse", "parseError"], false),
-       ("MustCompile", ["parser.Parse", "strconv.Quote"], true),
-       ("(*Expression).Search", ["evaluator.Evaluate", "evaluateError"], false)]) = true := by decide
-
-/-- [C08] whenever an entry point returns a non-nil error its result is the literal `nil`, and the error is produced by
-    one of the two mapping functions -/
-theorem error_returns_nil_result :
-    entryPoints.all (fun e => e.2.2.1.all (fun r =>
-      r.2 == "nil" || r.2 == "-" ||
-      (r.1 == "nil" && (r.2 == "parseError(expression, err)" || r.2 == "evaluateError(err)")))) = true := by decide
-
 /-- [C06, C07] no struct of the four packages has a field whose type mentions a channel, a function value,
     unsafe.Pointer or a type of package sync: AST nodes, compiled expressions and per-call state are plain data -/
 theorem struct_fields_plain : structFields.all (fun f => f.2.2.2.2 == "") = true := by decide
